@@ -39,14 +39,14 @@ GDown(p)    == (~Warm \/ RandomElement(1..4) = 1) /\ PDown(p) /\ p \notin held /
                /\ Log([ev |-> "Down", p |-> p]) /\ UNCHANGED held
 GAnn(p)     == /\ up[p] /\ p \notin held
                /\ LET x == RandomElement(Prefixes)
-                      r == MkRoute(PInfo, p, RandomElement(VarCodes))
+                      r == MkRoute(PInfo, p, RandomElement(IF PInfo[p].kind = "rs" THEN RsVarCodes ELSE VarCodes))
                   IN PAnn(p, x, r) /\ Log([ev |-> "Ann", p |-> p, x |-> x, r |-> r])
                /\ UNCHANGED <<stalled, held>>
 GWd(p)      == /\ up[p] /\ p \notin held
                /\ LET x == RandomElement(Prefixes)
                   IN PWd(p, x) /\ Log([ev |-> "Wd", p |-> p, x |-> x])
                /\ UNCHANGED <<stalled, held>>
-GApiAdd     == LET x == IF WithPolicy THEN "x2" ELSE RandomElement(Prefixes)
+GApiAdd     == (\A p \in Peers : PInfo[p].kind # "rs") /\ LET x == IF WithPolicy THEN "x2" ELSE RandomElement(Prefixes)
                    r == MkLocal(RandomElement({0, 1}))
                IN PApiAdd(x, r) /\ Log([ev |-> "ApiAdd", x |-> x, r |-> r]) /\ UNCHANGED <<stalled, held>>
 GApiDel     == LET x == RandomElement(Prefixes)
